@@ -459,6 +459,9 @@ class Repo(object):
                 dn = self.dotted(module, val)
                 if dn:
                     return FuncRef(None, None, dn)
+                if isinstance(val.value, ast.Name) and val.value.id in module.bindings and val.attr in ("match", "search", "fullmatch", "sub", "subn", "split", "findall", "finditer"):
+                    # `match_x = X_RE.match` with X_RE defined in this module: the name stands for the pattern's method
+                    return FuncRef(None, None, "%s.%s" % (self.canon(module, val.value.id), val.attr))
             return FuncRef(module, val, self.canon(module, name))
         return None
 
@@ -531,7 +534,18 @@ class Repo(object):
                 raise AnchorError("constant %s.%s not found" % key)
             kind = rec[0]
             if kind == "assign":
-                val = self._fold(module, rec[1])
+                try:
+                    val = self._fold(module, rec[1])
+                except Unknown as first:
+                    # the constant folder knows literals, a few builtins and regex compilation; whatever else a module-level
+                    # constant is built with (map / product / chain / frozenset of a generator ...) is read by the interpreter
+                    try:
+                        from .microeval import _Interp
+                        val = _Interp(self, module, {}, 0).expr(rec[1])
+                    except Unknown:
+                        raise first
+                    except RecursionError:
+                        raise first
             elif kind == "unpack":
                 val = self._fold(module, rec[1])[rec[2]]
             elif kind == "import":
